@@ -336,7 +336,9 @@ impl ReceiveChannelReliable {
         }
 
         if !self.slices.contains_key(&slice.message_id) {
-            let message_len = slice.num_slices * SLICE_SIZE;
+            // Reserve the smallest size the message can have (every slice but the last is full, the last one
+            // holds at least one byte): a message that fits the channel is not refused because of slice rounding.
+            let message_len = (slice.num_slices - 1) * SLICE_SIZE + 1;
             if self.memory_usage_bytes + message_len > self.max_memory_usage_bytes {
                 return Err(ChannelError::ReliableChannelMaxMemoryReached);
             }
@@ -356,7 +358,7 @@ impl ReceiveChannelReliable {
 
         if let Some(message) = slice_constructor.process_slice(slice.slice_index, &slice.payload)? {
             // Memory usage is re-added with the exactly message size
-            self.memory_usage_bytes -= slice.num_slices * SLICE_SIZE;
+            self.memory_usage_bytes -= (slice.num_slices - 1) * SLICE_SIZE + 1;
             self.process_message(message, slice.message_id)?;
             self.slices.remove(&slice.message_id);
         }
